@@ -944,6 +944,13 @@ func (x *Exec) enterLoop(fr *Frame, li *loopInfo, cur *State, ins []edgeState) *
 	// are loop-carried as well (also past a `preserves` assumption)
 	if fr.ct != nil && fr.inlineTag == "" {
 		for _, at := range fr.ct.Ats {
+			if at.Kind == "set" && fr.siteMayBeInLoop(li, at.Site) {
+				// a ghost field set inside the loop is loop-carried
+				if key, _, _, isField := x.ghostFieldLval(fr, nil, strings.TrimSpace(strings.SplitN(at.Clause.Text, "=", 2)[0])); isField {
+					hv.heap[key] = x.vc.freshConst("hv_"+x.vc.heapNames[key], x.vc.heapSorts[key])
+				}
+				continue
+			}
 			if at.Kind != "havoc" || !fr.siteMayBeInLoop(li, at.Site) {
 				continue
 			}
